@@ -198,6 +198,11 @@ type Run struct {
 	W      *World
 	worlds []*World
 
+	// Sweep, if an engine sets it, returns the engine's complete read-API view
+	// of its world as deterministic "method(args)=value" lines. C16 compares it
+	// right before and right after an upgrade.
+	Sweep func() []string
+
 	failed                         bool
 	shadow                         bool
 	foreign                        string
@@ -237,6 +242,7 @@ func Sim(t *testing.T, body func(r *Run)) {
 
 // Own registers a world for cleanup at the end of the run.
 func (r *Run) Own(w *World) *World {
+	w.blocksFed = 0 // BlockHook counts the engine's own blocks, not the set-up
 	r.worlds = append(r.worlds, w)
 	if r.W == nil {
 		r.W = w
